@@ -381,8 +381,8 @@ theorem fgResume_lastAsync (s : JobList) (index : Nat) (outcome : PState) :
         · exact remove_lastAsync s index
 
 /-- the table after `fg` is the one before, or `fgResume` of it at some index -/
-theorem fgBuiltin_table (s : JobList) (m : Bool) (outcome : PState) (args : List Str) :
-    (fgBuiltin s m outcome args).2 = s ∨ ∃ index, (fgBuiltin s m outcome args).2 = (fgResume s index outcome).2 := by
+theorem fgBuiltin_table (s : JobList) (m i : Bool) (outcome : PState) (args : List Str) :
+    (fgBuiltin s m i outcome args).2 = s ∨ ∃ index, (fgBuiltin s m i outcome args).2 = (fgResume s index outcome).2 := by
   unfold fgBuiltin
   cases parseArgs [] args with
   | none => exact Or.inl rfl
@@ -403,22 +403,22 @@ theorem fgBuiltin_table (s : JobList) (m : Bool) (outcome : PState) (args : List
           | ok lr => exact Or.inr ⟨index, this⟩
           | error e => exact Or.inr ⟨index, this⟩
 
-theorem fgBuiltin_inv (s : JobList) (m : Bool) (outcome : PState) (args : List Str) (h : Inv s) :
-    Inv (fgBuiltin s m outcome args).2 := by
-  rcases fgBuiltin_table s m outcome args with e | ⟨i, e⟩ <;> rw [e]
+theorem fgBuiltin_inv (s : JobList) (m i : Bool) (outcome : PState) (args : List Str) (h : Inv s) :
+    Inv (fgBuiltin s m i outcome args).2 := by
+  rcases fgBuiltin_table s m i outcome args with e | ⟨k, e⟩ <;> rw [e]
   · exact h
-  · exact fgResume_inv s i outcome h
+  · exact fgResume_inv s k outcome h
 
-theorem fgBuiltin_sub (s : JobList) (m : Bool) (outcome : PState) (args : List Str) :
-    Sub s (fgBuiltin s m outcome args).2 := by
-  rcases fgBuiltin_table s m outcome args with e | ⟨i, e⟩ <;> rw [e]
+theorem fgBuiltin_sub (s : JobList) (m i : Bool) (outcome : PState) (args : List Str) :
+    Sub s (fgBuiltin s m i outcome args).2 := by
+  rcases fgBuiltin_table s m i outcome args with e | ⟨k, e⟩ <;> rw [e]
   · exact Sub.refl s
-  · exact fgResume_sub s i outcome
+  · exact fgResume_sub s k outcome
 
-theorem fgBuiltin_lastAsync (s : JobList) (m : Bool) (outcome : PState) (args : List Str) :
-    (fgBuiltin s m outcome args).2.lastAsync = s.lastAsync := by
-  rcases fgBuiltin_table s m outcome args with e | ⟨i, e⟩ <;> rw [e]
-  exact fgResume_lastAsync s i outcome
+theorem fgBuiltin_lastAsync (s : JobList) (m i : Bool) (outcome : PState) (args : List Str) :
+    (fgBuiltin s m i outcome args).2.lastAsync = s.lastAsync := by
+  rcases fgBuiltin_table s m i outcome args with e | ⟨k, e⟩ <;> rw [e]
+  exact fgResume_lastAsync s k outcome
 
 /-! ### `wait` -/
 
@@ -522,6 +522,137 @@ theorem ampersand_inv (s : JobList) (pid : Nat) (m i : Bool) (name : Str) (h : I
   unfold ampersand
   exact setLastAsync_inv _ _ (insert_inv s (asyncJob pid m name) h hpre)
 
+theorem insert_lastAsync (s : JobList) (job : Job) : (s.insert job).2.lastAsync = s.lastAsync := by
+  unfold JobList.insert; cases lookup s.pids job.pid <;> rfl
+
+/-- the shape of the table after `insert`: the new slot, what it replaced, the reselection -/
+theorem insert_shape (s : JobList) (job : Job) (h : Inv s) (hpre : insertPre s job.pid = true) :
+    (∀ k, gets (s.insert job).2.entries k = if k = (s.insert job).1 then some job else gets s.entries k) ∧
+    (gets s.entries (s.insert job).1 = none ∨
+      ∃ old, gets s.entries (s.insert job).1 = some old ∧ old.isSuspended = false) ∧
+    (s.insert job).2.cur = (reselectInsert (s.currentJob.map (suspAt s.entries)) (s.previousJob.map (suspAt s.entries))
+      job.isSuspended (s.insert job).1 s.cur s.prev).1 ∧
+    (s.insert job).2.prev = (reselectInsert (s.currentJob.map (suspAt s.entries)) (s.previousJob.map (suspAt s.entries))
+      job.isSuspended (s.insert job).1 s.cur s.prev).2 := by
+  unfold JobList.insert
+  unfold insertPre at hpre
+  cases hl : lookup s.pids job.pid with
+  | none =>
+    simp only
+    obtain ⟨hs1, hs2, _⟩ := slabInsert_spec s.entries s.free job h.f
+    exact ⟨hs2, Or.inl hs1, trivial, trivial⟩
+  | some k =>
+    simp only
+    rw [hl] at hpre
+    obtain ⟨old, ho1, _⟩ := (h.p job.pid k).mp hl
+    simp only [ho1, Bool.not_eq_true'] at hpre
+    exact ⟨fun x => gets_set s.entries k x (some job) (gets_some_lt ho1),
+      Or.inr ⟨old, ho1, alive_of_stopped _ hpre⟩, trivial, trivial⟩
+
+/-- where the reselection of `insert` puts a suspended new job, over abstract slot functions -/
+theorem insert_sel_core (g g' : Nat → Option Job) (cur prev idx : Nat) (job : Job)
+    (hg : ∀ k, g' k = if k = idx then some job else g k)
+    (hold : g idx = none ∨ ∃ old, g idx = some old ∧ old.isSuspended = false)
+    (hs : job.isSuspended = true)
+    (exCur exPrev : Option Bool)
+    (hc : exCur = if (g cur).isSome then some (((g cur).map (·.isSuspended)).getD false) else none)
+    (hp : exPrev = if prev ≠ cur ∧ (g prev).isSome then some (((g prev).map (·.isSuspended)).getD false) else none)
+    (cur' prev' : Nat)
+    (hc' : cur' = (reselectInsert exCur exPrev job.isSuspended idx cur prev).1)
+    (hp' : prev' = (reselectInsert exCur exPrev job.isSuspended idx cur prev).2) :
+    ((∀ jc, g cur = some jc → jc.isSuspended = false) →
+      cur' = idx ∧ (g' cur').isSome = true ∧
+      ((g cur).isSome = true → cur ≠ idx → prev' = cur ∧ prev' ≠ cur' ∧ (g' prev').isSome = true)) ∧
+    (∀ jc, g cur = some jc → jc.isSuspended = true →
+      cur' = cur ∧ (g' cur').isSome = true ∧
+      ((∀ jp, prev ≠ cur → g prev = some jp → jp.isSuspended = false) →
+        prev' = idx ∧ prev' ≠ cur' ∧ (g' prev').isSome = true) ∧
+      (∀ jp, prev ≠ cur → g prev = some jp → jp.isSuspended = true →
+        prev' = prev ∧ prev' ≠ cur' ∧ (g' prev').isSome = true)) := by
+  subst hc hp hc' hp'
+  unfold reselectInsert
+  have hgi := hg idx
+  have hgc := hg cur
+  have hgp := hg prev
+  rw [hs]
+  rcases hold with hn | ⟨old, ho, hos⟩
+  · cases hgcur : g cur <;> cases hgprev : g prev <;>
+      simp only [hgcur, hgprev, Option.isSome, Option.map, Option.getD] <;>
+      by_cases hpc : prev = cur <;> by_cases hic : idx = cur <;> by_cases hip : idx = prev <;>
+      simp only [hpc, hic, hip, ne_eq, not_true_eq_false, not_false_eq_true, false_and, true_and, if_true, if_false] <;>
+      grind
+  · cases hgcur : g cur <;> cases hgprev : g prev <;>
+      simp only [hgcur, hgprev, Option.isSome, Option.map, Option.getD] <;>
+      by_cases hpc : prev = cur <;> by_cases hic : idx = cur <;> by_cases hip : idx = prev <;>
+      simp only [hpc, hic, hip, ne_eq, not_true_eq_false, not_false_eq_true, false_and, true_and, if_true, if_false] <;>
+      grind
+
+/-! ### round 3: `handle_job_status`, `jobs` without standard output, `iter_mut().next_back()` -/
+
+theorem jobsClosed_table (s : JobList) (args : List Str) :
+    (jobsClosed s args).2 = s ∨ (jobsClosed s args).2 = (jobsBuiltin s args).2 := by
+  unfold jobsClosed
+  split
+  · exact Or.inl rfl
+  · exact Or.inr rfl
+
+theorem jobsClosed_inv (s : JobList) (args : List Str) (h : Inv s) : Inv (jobsClosed s args).2 := by
+  rcases jobsClosed_table s args with e | e <;> rw [e]
+  · exact h
+  · exact jobsBuiltin_inv s args h
+
+theorem jobsClosed_sub (s : JobList) (args : List Str) : Sub s (jobsClosed s args).2 := by
+  rcases jobsClosed_table s args with e | e <;> rw [e]
+  · exact Sub.refl s
+  · exact jobsBuiltin_sub s args
+
+theorem jobsClosed_lastAsync (s : JobList) (args : List Str) : (jobsClosed s args).2.lastAsync = s.lastAsync := by
+  rcases jobsClosed_table s args with e | e <;> rw [e]
+  exact jobsBuiltin_lastAsync s args
+
+theorem reportLast_inv (s : JobList) (h : Inv s) : Inv s.reportLast := by
+  unfold JobList.reportLast
+  cases lastOccupied s.entries with
+  | none => exact h
+  | some i =>
+    simp only
+    cases hg : gets s.entries i with
+    | none => exact h
+    | some j => exact setSlot_inv s i j _ hg ⟨rfl, rfl⟩ h
+
+theorem reportLast_sub (s : JobList) : Sub s s.reportLast := by
+  unfold JobList.reportLast
+  cases lastOccupied s.entries with
+  | none => exact Sub.refl s
+  | some i =>
+    simp only
+    cases hg : gets s.entries i with
+    | none => exact Sub.refl s
+    | some j => exact sub_setSlot s i j _ hg rfl
+
+theorem reportLast_lastAsync (s : JobList) : s.reportLast.lastAsync = s.lastAsync := by
+  unfold JobList.reportLast
+  cases lastOccupied s.entries with
+  | none => rfl
+  | some i => simp only; cases gets s.entries i <;> rfl
+
+theorem handleJobStatus_inv (s : JobList) (pid : Nat) (r : PState) (i : Bool) (name : Str) (h : Inv s)
+    (hpre : (!r.isStopped || insertPre s pid) = true) : Inv (handleJobStatus s pid r i name).2 := by
+  unfold handleJobStatus
+  cases hs : r.isStopped with
+  | false => exact h
+  | true =>
+    simp only [if_true]
+    rw [hs] at hpre
+    exact insert_inv s _ h (by simpa using hpre)
+
+theorem handleJobStatus_lastAsync (s : JobList) (pid : Nat) (r : PState) (i : Bool) (name : Str) :
+    (handleJobStatus s pid r i name).2.lastAsync = s.lastAsync := by
+  unfold handleJobStatus
+  split
+  · exact insert_lastAsync s _
+  · rfl
+
 /-! ### slot-wise effect of single operations (for the exact statements about `jobs`, `bg`, `fg`, `cmd &`) -/
 
 theorem remove_gets (s : JobList) (i k : Nat) :
@@ -558,9 +689,6 @@ theorem insert_get (s : JobList) (job : Job) (h : Inv s) :
     obtain ⟨old, ho1, _⟩ := (h.p job.pid k).mp hl
     rw [gets_set _ _ _ _ (gets_some_lt ho1)]; simp
 
-theorem insert_lastAsync (s : JobList) (job : Job) : (s.insert job).2.lastAsync = s.lastAsync := by
-  unfold JobList.insert; cases lookup s.pids job.pid <;> rfl
-
 /-- `update_status` on the job at `idx`: the new slot content, everything else in place -/
 theorem update_get (s : JobList) (pid idx : Nat) (st : PState) (job : Job)
     (hl : lookup s.pids pid = some idx) (hg : gets s.entries idx = some job) :
@@ -592,6 +720,32 @@ theorem update_suspends_current (s : JobList) (pid idx : Nat) (st : PState) (job
     split <;> simp_all
   rw [this, h1 idx]
   simp
+
+/-- … and the job that was the current job becomes the previous job -/
+theorem update_suspends_previous (s : JobList) (pid idx : Nat) (st : PState) (job : Job)
+    (hl : lookup s.pids pid = some idx) (hg : gets s.entries idx = some job)
+    (hr : job.isSuspended = false) (hs : st.isStopped = true)
+    (c : Nat) (hc : s.currentJob = some c) (hne : c ≠ idx) :
+    (s.updateStatus pid st).2.previousJob = some c := by
+  have hcc : c = s.cur ∧ (gets s.entries s.cur).isSome = true := by
+    unfold JobList.currentJob at hc
+    split at hc
+    · rename_i hh; cases hc; exact ⟨rfl, hh⟩
+    · cases hc
+  obtain ⟨e, hsome⟩ := hcc
+  subst e
+  unfold JobList.updateStatus
+  rw [hl]
+  dsimp only
+  rw [hg]
+  dsimp only
+  unfold JobList.previousJob reselectUpdate
+  have hi := gets_some_lt hg
+  have hne' : idx ≠ s.cur := fun e => hne e.symm
+  have hr' : job.state.isStopped = false := hr
+  simp only [Job.isSuspended, hr', hs, and_self, if_true, hne', ne_eq, not_false_eq_true]
+  rw [gets_set _ _ _ _ hi]
+  simp [hne, hne', hsome]
 
 theorem bgResume_ok (s : JobList) (index : Nat) (job : Job)
     (hg : gets s.entries index = some job) (ho : job.owned = true) (hc : job.jc = true) :
